@@ -39,7 +39,11 @@ def gen(rng, tier):
     if rng.random() < 0.4:
         focus["res_abs"] = True
     feasible = rng.random() < 0.35
-    return C.forward_spec(rng, tier, focus, feasible=feasible)
+    return C.maybe_history(rng, C.forward_spec(rng, tier, focus, feasible=feasible), 0.25, reload_prob=0.4)
+
+
+def extra_candidates(spec):
+    return C.history_candidates(spec)
 
 
 def can_accept_worker(st, T, tid, wid):
@@ -57,6 +61,10 @@ def check_trace(res, tr):
     started_prev = {tid: st.exempt(tid) for tid in st.order}  # started by the previous recorded instant (FINISHED from the start counts)
     finished_prev = {tid: st.exempt(tid) for tid in st.order}
     prevR = rec.init_snap["T"] if rec.init_snap is not None else None
+    if prevR is not None:
+        for tid in st.order:  # a continuation starts from what the first call left
+            if prevR[tid][0] in (WORKING, FINISHED, 3):
+                started_prev[tid] = True
     nontrivial = False
     for s in rec.steps:
         k = s.t
